@@ -51,6 +51,21 @@ def draw_value(data, tt, flags):
                 pv = float(pv)
     elif isinstance(pv, float):
         flags.add('decimal-typed')
+    if ti.union is None and ti.primitive == 'decimal' and not ti.is_integer and data.draw(st.integers(0, 3)) == 0:
+        # floats of all magnitudes inside the type's bounds (tiny values need many fractional digits, large ones none)
+        lo = ti.min_inc if ti.min_inc is not None else (ti.min_exc if ti.min_exc is not None else None)
+        hi = ti.max_inc if ti.max_inc is not None else None
+        f = data.draw(st.one_of(
+            st.sampled_from([2.5e-07, 1.25e-05, 3.125e-06, 1.0000001e-05, 0.1 + 0.2, 1e16, 123456.789012345, 1e-10]),
+            st.floats(min_value=float(lo) if lo is not None else -1e12, max_value=float(hi) if hi is not None else 1e12,
+                      allow_nan=False, allow_infinity=False)))
+        if data.draw(st.booleans()) and lo is None:
+            f = -f
+        from decimal import Decimal as _D
+        if lexical.valid(tt, format(_D(repr(f)), 'f')):
+            flags.add('decimal-typed')
+            flags.add('fine-float')
+            return f
     return pv
 
 
@@ -187,6 +202,32 @@ def typed_values_ok(e, node_path=''):
     return None
 
 
+def values_kept(a, b, path=''):
+    """numeric values of the ORIGINAL tree (ints, floats in element content and attributes) equal those of the
+    re-parsed tree - the damage of a lossy first write is invisible when only the two outputs are compared"""
+    here = path + '/' + a.name
+
+    def same(x, y):
+        if isinstance(x, bool) or isinstance(y, bool):
+            return x == y
+        if isinstance(x, (int, float)) and isinstance(y, (int, float)):
+            return float(x) == float(y) and (not isinstance(x, int) or not isinstance(y, int) or x == y)
+        return True      # non-numeric values are compared textually by compare()
+    if not same(a.value_, b.value_):
+        return {'at': here, 'original': repr(a.value_), 'reparsed': repr(b.value_)}
+    aa, ba = dict(a.attributes), dict(b.attributes)
+    for k in aa:
+        if k in ba and not same(aa[k], ba[k]):
+            return {'at': here + '@' + k, 'original': repr(aa[k]), 'reparsed': repr(ba[k])}
+    ka = call(a.get_children, True).value or []
+    kb = call(b.get_children, True).value or []
+    for x, y in zip(ka, kb):
+        d = values_kept(x, y, here)
+        if d:
+            return d
+    return None
+
+
 def check(plan, flags=()):
     s = schema()
     t = s.element_type[plan['element']]
@@ -213,6 +254,9 @@ def check(plan, flags=()):
     d = typed_values_ok(rp.value)
     if d:
         return F('integer-typed-value-not-int-after-parse', d), 'emitted'
+    d = values_kept(rb.value, rp.value)
+    if d:
+        return F('numeric-value-changed-by-round-trip', d), 'emitted'
     rp2 = roundtrip(r2.value)
     if not rp2.ok:
         return F('own-output-not-parsable', 'second trip %s: %s' % (rp2.etype, rp2.msg[:160]), rp2.site), 'emitted'
